@@ -1,4 +1,4 @@
-SPECIFICATION Spec
+SPECIFICATION SimSpec
 CONSTANTS
   K = 1
   Cap0 = 0
